@@ -2,7 +2,7 @@ SPECIFICATION Spec
 CONSTANTS
   DataAlgs = {"aes128-gcm", "aes192-gcm", "aes256-gcm", "aes128-cbc", "aes256-cbc"}
   BindAlgs = {"aes128-gcm", "aes256-cbc"}
-  Nows = {3, 4, 8, 12, 13}
+  Nows = {3, 4, 8, 12, 13, 99}
   Residues = {0, 1, 7, 15}
 INVARIANTS InvC07 InvC11 InvC01 RunAgrees Emit
 PROPERTIES Frozen Terminates
